@@ -222,6 +222,45 @@ func (eng *Engine) implementations(it types.Type, m *types.Func) []*ssa.Function
 	return out
 }
 
+// typeByName: "pkgpath.Name" or "*pkgpath.Name"
+func (eng *Engine) typeByName(name string) types.Type {
+	ptr := strings.HasPrefix(name, "*")
+	name = strings.TrimPrefix(name, "*")
+	i := strings.LastIndex(name, ".")
+	if i < 0 {
+		return nil
+	}
+	p := eng.pkgByPath[name[:i]]
+	if p == nil {
+		p = eng.pkgByPath[modulePath+"/"+name[:i]]
+	}
+	if p == nil {
+		return nil
+	}
+	obj := p.Pkg.Scope().Lookup(name[i+1:])
+	if obj == nil {
+		return nil
+	}
+	if ptr {
+		return types.NewPointer(obj.Type())
+	}
+	return obj.Type()
+}
+
+// isProtoMsgPtr: pointer to a generated protobuf message struct
+func (eng *Engine) isProtoMsgPtr(t types.Type) bool {
+	pt, ok := types.Unalias(t).Underlying().(*types.Pointer)
+	if !ok {
+		return false
+	}
+	n, ok := types.Unalias(pt.Elem()).(*types.Named)
+	if !ok || n.Obj().Pkg() == nil || n.Obj().Pkg().Path() != modulePath+"/proto" {
+		return false
+	}
+	_, isStruct := n.Underlying().(*types.Struct)
+	return isStruct
+}
+
 // constTable: the (key, value) constants init stores into a package-level map variable, provided the variable is
 // assigned exactly once (in init, from a fresh map) and the map is updated only there, with constants.
 func (eng *Engine) constTable(g *ssa.Global) ([][2]*ssa.Const, bool) {
